@@ -139,9 +139,13 @@ def run(tier, seed):
         plans = [(("dX", "dY"), "memo-lines", 1), (("dX", "dZ"), "memo-lines+entries", 1), (("dZ", "dX"), "memo-lines", 1),
                  (("cA", "cB"), "antlr-entries", 1), (("cA", "dX"), "antlr-entries", 1)]
     else:
-        plans = [(("dX", "dY"), "memo-lines", 2), (("dX", "dZ"), "memo-lines+entries", 2), (("dZ", "dY"), "memo-lines", 2),
-                 (("dX", "dX"), "memo-lines", 2), (("cA", "cB"), "antlr-lines", 1), (("cB", "cA"), "antlr-entries", 2),
+        # sized by the 'schedules_at_next_bound' figures of the quick tier (about 60 executions / s on 16 cores)
+        plans = [(("dX", "dY"), "memo-lines", 2), (("dZ", "dY"), "memo-lines", 2), (("dX", "dX"), "memo-lines", 2),
+                 (("dX", "dZ"), "memo-lines+entries", 1), (("cA", "cB"), "antlr-lines", 1), (("cB", "cA"), "antlr-entries", 1),
                  (("cA", "dX"), "antlr-entries", 2), (("dX", "dY", "dZ"), "memo-lines", 1), (("cA", "cB", "dX"), "antlr-entries", 1)]
+    if os.environ.get("VERIF_C12_ONLY"):   # development only: "dX,dY:memo-lines:2"
+        names, gran, bound = os.environ["VERIF_C12_ONLY"].split(":")
+        plans = [(tuple(names.split(",")), gran, int(bound))]
     viols = []
     total_exec = total_points = 0
     outcomes = {}
@@ -263,7 +267,8 @@ def replay(path):
     if "schedule" not in d:
         print("this record has no schedule (free-running pass): run the check instead")
         return 2
-    names, gran, prefix = list(d["threads"]), d["granularity"], tuple(d["schedule"])
+    names, gran = list(d["threads"]), d["granularity"]
+    prefix = tuple(tuple(x) if isinstance(x, list) else x for x in d["schedule"])
     expect = [sequential(n) for n in names]
     setup = make_setup(names, gran)
     bad = 0
